@@ -16,7 +16,7 @@ def validate_decoded(integer):
   # always valid
 
 def validate_encoded(string):
-  if not re.match(r"^[-+]?[0-9]*\.?[0-9]+([eE][-+]?[0-9]+)?$", string):
+  if not re.match(r"^[-+]?[0-9]*\.?[0-9]+([eE][-+]?[0-9]+)?\Z", string):
     raise gfapy.FormatError(
       "{} does not represent a valid float\n".format(repr(string)) +
       r"(it does not match [-+]?[0-9]*\.?[0-9]+([eE][-+]?[0-9]+)?)")
